@@ -822,7 +822,9 @@ pub fn run_case(line: &str) -> String {
             if ok {
                 r.accepted.push(m.to_string());
             }
-            r.settle();
+            // load-independent: up to 5 s (not the scripted histories' 400 ms) for the worker to take what it can take
+            let t0 = Instant::now();
+            while !r.settle() && t0.elapsed() < Duration::from_secs(5) {}
             ok
         };
         let release = |r: &mut Rig, o: Outcome| {
@@ -830,7 +832,7 @@ pub fn run_case(line: &str) -> String {
             let n = st.log.len();
             st.release = Some(o);
             r.gate.cv.notify_all();
-            let deadline = Instant::now() + SETTLE;
+            let deadline = Instant::now() + Duration::from_secs(5);
             while st.log.len() == n && Instant::now() < deadline {
                 let (g, _) = r.gate.cv.wait_timeout(st, Duration::from_millis(20)).unwrap();
                 st = g;
@@ -841,7 +843,8 @@ pub fn run_case(line: &str) -> String {
             d_emit(&mut decoy, "decoy.boom:1|c");
             decoy.panics_released += 1;
             release(&mut decoy, Outcome::Panic);
-            decoy.settle();
+            let t0 = Instant::now();
+            while !decoy.settle() && t0.elapsed() < Duration::from_secs(5) {}
         }
         let first = d_emit(&mut decoy, "decoy.a:1|c");
         let second = d_emit(&mut decoy, "decoy.b:1|c");
